@@ -1978,6 +1978,9 @@ class ExpressionEvaluator(Parser):
                 value = constant.token[2:]
             except KeyError:
                 value = constant.token
+                # A leading zero denotes an octal constant.
+                if len(value) > 1 and value[0] == "0" and value[1].isdigit():
+                    base = 8
 
             # Strip suffix (if present)
             suffix = None
